@@ -9,7 +9,7 @@ From Echo Require Import Glue.GRouter.
 Import ListNotations.
 
 (* a middleware: passes through, rewrites the path (Pre), or fails without calling next *)
-Inductive mw_kind := MPass | MRewrite (newpath : Spec2.str) | MFail (code : nat).
+Inductive mw_kind := MPass | MRewrite (newpath : Spec2.str) | MFail (code : nat) | MHost (newhost : Spec2.str).   (* MHost: a Pre middleware that rewrites the request's Host *)
 Record mw := { mw_id : nat; mw_kind_of : mw_kind }.
 
 Inductive ev := Enter (i : nat) | Exit (i : nat) (err : nat) | Handler (h : nat) (err : nat).
@@ -103,6 +103,8 @@ Definition interp (ops : list op) : state := fold_left step ops state0.
 (* ---------------- one request *)
 Definition apply_rewrite (p : Spec2.str) (m : mw) : Spec2.str :=
   match mw_kind_of m with MRewrite q => q | _ => p end.
+Definition apply_host (h : Spec2.str) (m : mw) : Spec2.str :=
+  match mw_kind_of m with MHost q => q | _ => h end.
 
 (* the router of the request's host: exact Host match, else the default router *)
 Definition host_known (s : state) (h : Spec2.str) : bool :=
@@ -138,6 +140,12 @@ Definition request (s : state) (host method path : Spec2.str) : list ev * nat :=
     | [] => p
     | m :: r => match mw_kind_of m with MFail _ => p | _ => reach r (apply_rewrite p m) end
     end in
+  let fix reachh (ms : list mw) (h : Spec2.str) : Spec2.str :=
+    match ms with
+    | [] => h
+    | m :: r => match mw_kind_of m with MFail _ => h | _ => reachh r (apply_host h m) end
+    end in
   let p' := reach (s_pre s) path in
-  let t := select s host method p' in
+  (* the router of the Host value the Pre middlewares leave behind *)
+  let t := select s (reachh (s_pre s) host) method p' in
   run_mws (s_pre s) (run_mws (s_use s) (run_mws (t_chain t) ([Handler (t_handler t) (t_err t)], t_err t))).
